@@ -2797,8 +2797,17 @@ class Cond(Generic[X, R], GFI[X, R]):
         else:
             # Both branches discarded something: keep the values that were visible.
             merged_discard, _ = self.callee.merge(discard, discard_, tr.check)
+        # As in `update`: each branch weight is relative to that branch's own old
+        # score; when the move switches the branch the weight must be relative to
+        # the old score of the branch that was actually visible.
+        old_score, old_score_ = map(get_score, tr.trs)
+        weight = (
+            jnp.where(check, w, w_)
+            + tr.get_score()
+            - jnp.where(check, old_score, old_score_)
+        )
         return (
             CondTr(self, check, [new_tr, new_tr_]),
-            jnp.where(check, w, w_),
+            weight,
             merged_discard,
         )
